@@ -14,11 +14,10 @@ import claims
 def suites_for(prop):
     import suite_m
     table = {"M": suite_m.SuiteM}
-    try:
-        import suite_s
-        table["S"] = suite_s.SuiteS
-    except ImportError:
-        pass
+    import suite_s
+    import suite_c
+    table["S"] = suite_s.SuiteS
+    table["C"] = suite_c.SuiteC
     c = claims.CLAIMS.get(prop)
     if not c:
         return []
